@@ -143,12 +143,12 @@ Section Weak.
      and every cursor is at or above n: it ends without a match *)
   Lemma w_conj_loop : forall fuel cs currs mx oi n,
     all3 wchild cs Ss0 currs -> cursors_from currs n -> 0 <= n -> none_from (conj_S Ss0) n ->
-    loop_state_ok currs mx oi -> ((mx < length currs)%nat \/ currs = []) ->
+    loop_state_ok currs mx oi ->
     (mu N currs mx oi < fuel)%nat ->
     exists cs' currs' mx', conj_loop C cnext cadv fuel cs currs mx oi = Ok (None, (cs', currs', mx')) /\
-                           all3 wchild cs' Ss0 currs' /\ ((mx' < length currs')%nat \/ currs' = []).
+                           all3 wchild cs' Ss0 currs'.
   Proof.
-    induction fuel as [| fuel IH]; intros cs currs mx oi n H3 Hf Hn0 Hnone Hst Hmx Hmu; [lia|].
+    induction fuel as [| fuel IH]; intros cs currs mx oi n H3 Hf Hn0 Hnone Hst Hmu; [lia|].
     destruct (all3_length _ _ _ _ H3) as [Hl1 Hl2].
     destruct oi as [i|]; simpl.
     - destruct Hst as [Hi [m [Hm Heq]]]. rewrite Hm.
@@ -182,7 +182,6 @@ Section Weak.
             + pose proof (Hge1 j mj ltac:(lia) Hj). lia.
             + rewrite Hun1 in Hj by lia. eapply Hf; eauto.
           - exact I.
-          - left. lia.
           - unfold mu in *. rewrite Hlen1.
             rewrite (nth_nth_error currs1 i None _ Hci). rewrite (nth_nth_error currs mx None _ Hm) in Hmu.
             simpl slack in *. unfold phase in *.
@@ -201,7 +200,6 @@ Section Weak.
           - split; [rewrite set_nth_length; lia|]. exists m. split.
             + rewrite nth_error_set_nth_neq by lia. exact Hm.
             + intros j Hj. rewrite nth_error_set_nth_neq by lia. apply Heq. exact Hj.
-          - left. rewrite set_nth_length. exact Hmxlt.
           - unfold mu in *. rewrite set_nth_length.
             pose proof (total_slack_set N currs i (Some c) r Ei) as HT.
             assert (Hnth : nth mx (set_nth currs i r) None = nth mx currs None).
@@ -213,7 +211,7 @@ Section Weak.
               - apply Z2Nat.inj_lt; lia.
               - assert (0 < Z.to_nat (N - dm_num c))%nat by (apply Z2Nat.inj_lt with (n := 0); lia). lia. }
             unfold phase in *. nia. }
-      + do 3 eexists. split; [reflexivity|]. split; [exact H3|exact Hmx].
+      + do 3 eexists. split; [reflexivity|exact H3].
       + (* every cursor equals the maximum: that would be a match at or above n *)
         exfalso.
         assert (Hilen : i = length currs) by (apply nth_error_None in Ei; lia). subst i.
@@ -230,8 +228,8 @@ Section Weak.
       + apply IH with (n := n); auto.
         * split; [lia|]. exists m. split; [exact Em|]. intros j Hj. lia.
         * unfold mu, phase in *. lia.
-      + do 3 eexists. split; [reflexivity|]. split; [exact H3|exact Hmx].
-      + do 3 eexists. split; [reflexivity|]. split; [exact H3|exact Hmx].
+      + do 3 eexists. split; [reflexivity|exact H3].
+      + do 3 eexists. split; [reflexivity|exact H3].
   Qed.
 
   Lemma w_adv_trailing : forall cnt i cs currs n,
@@ -269,24 +267,163 @@ Section Weak.
   (* ---------- the conjunction that reported the end ---------- *)
 
   Definition conj_wfin (st : conj_st C) : Prop :=
-    cj_init st = true /\ all3 wchild (cj_s st) Ss0 (cj_currs st) /\
-    ((cj_max st < length (cj_currs st))%nat \/ cj_currs st = []).
+    cj_init st = true /\ all3 wchild (cj_s st) Ss0 (cj_currs st).
 
   Lemma conj_wfin_adv : forall lf st lo n, conj_wfin st -> none_from (conj_S Ss0) lo -> lo <= n -> 0 <= n ->
     (conj_fuel N (length Ss0) <= lf)%nat ->
     exists st', conj_advance C cnext cadv lf st n = Ok (None, st') /\ conj_wfin st'.
   Proof.
-    intros lf st lo n [Hi [H3 Hmx]] Hnone Hle Hn Hlf. unfold conj_advance, conj_initialise. rewrite Hi. cbn [rbind].
+    intros lf st lo n [Hi H3] Hnone Hle Hn Hlf. unfold conj_advance, conj_initialise. rewrite Hi. cbn [rbind].
     destruct (all3_length _ _ _ _ H3) as [Hl1 Hl2].
     destruct (w_adv_trailing (length (cj_s st)) O (cj_s st) (cj_currs st) n H3 Hn ltac:(lia)) as [cs' [currs' [E [H3' [Hf' Hl']]]]].
     { intros j m Hj. lia. }
     rewrite E. cbn [rbind fst snd]. unfold conj_next, conj_initialise. cbn [cj_init cj_s cj_currs cj_max rbind].
-    destruct (w_conj_loop lf cs' currs' (cj_max st) None n H3' Hf' Hn) as [cs2 [currs2 [mx2 [E2 [H32 Hmx2]]]]].
+    destruct (w_conj_loop lf cs' currs' (cj_max st) None n H3' Hf' Hn) as [cs2 [currs2 [mx2 [E2 H32]]]].
     { eapply none_from_mono; eauto. }
     { exact I. }
-    { destruct Hmx as [Hmx|Hmx]; [left; lia|right]. destruct currs'; [reflexivity|]. rewrite Hmx in Hl'. discriminate. }
     { pose proof (w_mu_le cs' currs' (cj_max st) None H3'). destruct (all3_length _ _ _ _ H3') as [_ B0]. rewrite <- B0 in H. lia. }
     rewrite E2. cbn [rbind]. eexists. split; [reflexivity|].
-    split; [reflexivity|]. split; [exact H32|exact Hmx2].
+    split; [reflexivity|exact H32].
+  Qed.
+  (* ---------- the slice disjunction over sound children ---------- *)
+
+  Variable dmin : Z.
+
+  Definition dsl_wany (st : dsl_st C) (p : option Z) : Prop :=
+    ds_init st = true /\ ds_min st = dmin /\
+    all3 wchild (ds_s st) Ss0 (ds_currs st) /\
+    ds_matching st = fst (update_matches (ds_currs st)) /\ ds_idxs st = snd (update_matches (ds_currs st)) /\
+    (forall q, p = Some q -> cursors_from (ds_currs st) (q + 1)).
+
+  Lemma w_count : forall cs Ss currs d, all3 wchild cs Ss currs -> (count_at d currs <= count_true Ss d)%nat.
+  Proof.
+    intros cs Ss currs d H. induction H as [| c S cur cs Ss currs Hok H IH]; [unfold count_at, count_true; simpl; lia|].
+    unfold count_at, count_true in *. simpl. destruct Hok as [_ [_ Hok]].
+    destruct cur as [m|]; simpl.
+    - destruct (dm_num m =? d) eqn:E; simpl.
+      + apply Z.eqb_eq in E. subst d. rewrite Hok. simpl. lia.
+      + destruct (S d); simpl; lia.
+    - destruct (S d); simpl; lia.
+  Qed.
+
+  Lemma w_cursors_nonneg : forall cs Ss currs, all3 wchild cs Ss currs -> cursors_from currs 0.
+  Proof.
+    intros cs Ss currs H j m Hj.
+    destruct (w3_lookup cs Ss currs j H (nth_error_Some_lt _ _ _ Hj)) as [c [S [cur [_ [_ [Hcur [HB [_ Hok]]]]]]]].
+    rewrite Hj in Hcur. inversion Hcur; subst cur. apply HB in Hok. lia.
+  Qed.
+
+  (* stepping the children that sit on the candidate d *)
+  Lemma w_next_idxs : forall idxs cs currs d,
+    NoDup idxs -> all3 wchild cs Ss0 currs ->
+    (forall j, In j idxs -> exists m, nth_error currs j = Some (Some m) /\ dm_num m = d) ->
+    exists cs' currs', next_idxs C cnext idxs cs currs = Ok (cs', currs') /\ all3 wchild cs' Ss0 currs' /\
+      (forall j m, nth_error currs' j = Some (Some m) -> d < dm_num m \/ (~ In j idxs /\ nth_error currs j = Some (Some m))).
+  Proof.
+    induction idxs as [| i idxs IH]; intros cs currs d Hnd H3 Hall.
+    - exists cs, currs. simpl. split; [reflexivity|]. split; [exact H3|]. intros j m Hj. right. split; [intros []|exact Hj].
+    - inversion Hnd as [| i' l' Hnin Hnd']; subst.
+      destruct (Hall i (or_introl eq_refl)) as [m [Hi Hm]].
+      assert (Hilt : (i < length currs)%nat) by (eapply nth_error_Some_lt; eauto).
+      destruct (w3_lookup cs Ss0 currs i H3 Hilt) as [c [S [cur [Hc [HS [Hcur [HB [HW Hok]]]]]]]].
+      rewrite Hi in Hcur. inversion Hcur; subst cur. simpl in HW.
+      destruct (Hwn c S (dm_num m) HW) as [r [c' [E Hres]]].
+      simpl. unfold next_child. rewrite Hc. simpl. rewrite E. simpl.
+      destruct (IH (set_nth cs i c') (set_nth currs i r) d Hnd') as [cs2 [currs2 [E2 [H32 Hpost]]]].
+      { eapply all3_set; eauto. eapply wchild_of_res; eauto. }
+      { intros j Hj. destruct (Hall j (or_intror Hj)) as [mj [Hj1 Hj2]]. exists mj.
+        rewrite nth_error_set_nth_neq by (intros ->; contradiction). split; assumption. }
+      exists cs2, currs2. split; [exact E2|]. split; [exact H32|].
+      intros j mj Hj. destruct (Hpost j mj Hj) as [Hgt|[Hnin' Hold]]; [left; exact Hgt|].
+      destruct (Nat.eq_dec j i) as [->|Hne].
+      + rewrite nth_error_set_nth_eq in Hold by exact Hilt. inversion Hold; subst r. simpl in Hres.
+        left. destruct Hres as [_ [Hge _]]. lia.
+      + rewrite nth_error_set_nth_neq in Hold by congruence. right. split; [|exact Hold].
+        intros [Heq|Hin]; [congruence|contradiction].
+  Qed.
+
+  Definition dsl_wres (low : Z) (r : option dmatch) (st' : dsl_st C) : Prop :=
+    match r with
+    | Some rv => disj_S Ss0 dmin (dm_num rv) = true /\ low <= dm_num rv /\ dsl_wany st' (Some (dm_num rv))
+    | None => dsl_wany st' None
+    end.
+
+  Lemma w_dsl_loop : forall fuel st L,
+    dsl_wany st None -> cursors_from (ds_currs st) L -> 0 <= L -> (Z.to_nat (N - L) + 1 < fuel)%nat ->
+    exists r st', dsl_loop C cnext fuel st = Ok (r, st') /\ dsl_wres L r st'.
+  Proof.
+    induction fuel as [| fuel IH]; intros st L HR HfL HL Hfuel; [lia|].
+    pose proof HR as [Hi [Hmin [H3 [Hm [Hx _]]]]].
+    destruct (all3_length _ _ _ _ H3) as [Hl1 Hl2].
+    pose proof (update_matches_spec (ds_currs st)) as [Hlen Hum].
+    pose proof (update_matches_idxs (ds_currs st)) as [Hnd Hbound].
+    rewrite <- Hm in Hlen, Hum. rewrite <- Hx in Hlen, Hnd, Hbound, Hum.
+    rewrite dsl_loop_unfold. destruct (ds_matching st) as [| m0 mr] eqn:Em.
+    - exists None, st. split; [reflexivity|exact HR].
+    - destruct Hum as [Hleast [Hall [Hcnt Hidx]]].
+      remember (dm_num m0) as d eqn:Ed.
+      assert (Hex : exists j m, nth_error (ds_currs st) j = Some (Some m) /\ dm_num m = d).
+      { destruct (ds_idxs st) as [| j0 jr] eqn:Ej; [simpl in Hlen; discriminate|].
+        destruct (proj1 (Hidx j0) (or_introl eq_refl)) as [m [Hj Hmj]]. eauto. }
+      destruct Hex as [j0 [mj0 [Hj0 Hmj0]]].
+      assert (HdL : L <= d) by (pose proof (HfL j0 mj0 Hj0); lia).
+      assert (HdN : d < N).
+      { destruct (w3_lookup _ _ _ j0 H3 (nth_error_Some_lt _ _ _ Hj0)) as [c [S [cur [_ [_ [Hcur [HB [_ Hok]]]]]]]].
+        rewrite Hj0 in Hcur. inversion Hcur; subst cur. apply HB in Hok. lia. }
+      destruct (w_next_idxs (ds_idxs st) (ds_s st) (ds_currs st) d Hnd H3) as [cs' [currs' [E [H3' Hpost]]]].
+      { intros j Hj. apply Hidx. exact Hj. }
+      rewrite E. cbn [rbind fst snd].
+      assert (Hf' : cursors_from currs' (d + 1)).
+      { intros j m Hj. destruct (Hpost j m Hj) as [Hgt|[Hnin Hold]]; [lia|].
+        assert (d <= dm_num m) by (apply (Hleast (Some m) m); [eapply nth_error_In; eauto|reflexivity]).
+        destruct (Z.eq_dec (dm_num m) d) as [Heq|Hne]; [|lia].
+        exfalso. apply Hnin. apply Hidx. exists m. split; [exact Hold|exact Heq]. }
+      set (st' := {| ds_s := cs'; ds_currs := currs'; ds_min := ds_min st;
+                     ds_matching := fst (update_matches currs'); ds_idxs := snd (update_matches currs'); ds_init := true |}).
+      assert (HR' : forall p, (forall q, p = Some q -> q + 1 <= d + 1) -> dsl_wany st' p).
+      { intros p Hp. unfold dsl_wany, st'. simpl. split; [reflexivity|]. split; [exact Hmin|]. split; [exact H3'|].
+        split; [reflexivity|]. split; [reflexivity|]. intros q Hq j m Hj. pose proof (Hf' j m Hj). pose proof (Hp q Hq). lia. }
+      destruct (ds_min st <=? Z.of_nat (length (m0 :: mr))) eqn:Efound.
+      + exists (build_match (m0 :: mr)), st'. split; [reflexivity|].
+        cbn [build_match dsl_wres dm_num]. rewrite <- Ed.
+        split; [|split; [exact HdL|apply HR'; intros q Hq; inversion Hq; lia]].
+        unfold disj_S. apply Z.leb_le in Efound. rewrite Hmin in Efound. apply Z.leb_le.
+        pose proof (w_count _ _ _ d H3) as Hc. rewrite <- Hcnt in Hc. simpl length in *. lia.
+      + destruct (IH st' (d + 1) (HR' None ltac:(intros q Hq; discriminate)) Hf' ltac:(lia)) as [r [st'' [E2 Hres]]].
+        { assert (Z.to_nat (N - (d + 1)) < Z.to_nat (N - L))%nat by (apply Z2Nat.inj_lt; lia). lia. }
+        exists r, st''. split; [exact E2|]. destruct r as [rv|]; simpl in *; [|exact Hres].
+        destruct Hres as [A [B0 D]]. split; [exact A|]. split; [lia|exact D].
+  Qed.
+
+  Lemma dsl_wany_weaken st p : dsl_wany st p -> dsl_wany st None.
+  Proof.
+    intros [A [B0 [D [E [F _]]]]]. split; [exact A|]. split; [exact B0|]. split; [exact D|]. split; [exact E|].
+    split; [exact F|]. intros q Hq. discriminate.
+  Qed.
+
+  Lemma dsl_wany_next : forall lf st q, dsl_wany st (Some q) -> (Z.to_nat N + 2 <= lf)%nat ->
+    exists r st', dsl_next C cnext lf st = Ok (r, st') /\ dsl_wres (q + 1) r st'.
+  Proof.
+    intros lf st q HR Hlf. unfold dsl_next, dsl_initialise. pose proof HR as [Hi [_ [H3 [_ [_ Hp]]]]]. rewrite Hi. cbn [rbind].
+    destruct (w_dsl_loop lf st (Z.max 0 (q + 1)) (dsl_wany_weaken _ _ HR)) as [r [st' [E Hres]]].
+    - intros j m Hj. pose proof (Hp q eq_refl j m Hj). pose proof (w_cursors_nonneg _ _ _ H3 j m Hj). lia.
+    - lia.
+    - lia.
+    - exists r, st'. split; [exact E|]. destruct r as [rv|]; simpl in *; [|exact Hres].
+      destruct Hres as [A [B0 D]]. split; [exact A|]. split; [lia|exact D].
+  Qed.
+
+  (* Advance: every target is answered *)
+  Lemma dsl_wany_adv : forall lf st p n, dsl_wany st p -> 0 <= n -> (Z.to_nat N + 2 <= lf)%nat ->
+    exists r st', dsl_advance C cnext cadv lf st n = Ok (r, st') /\ dsl_wres n r st'.
+  Proof.
+    intros lf st p n HR Hn Hlf. unfold dsl_advance, dsl_initialise. pose proof HR as [Hi [Hmin [H3 _]]]. rewrite Hi. cbn [rbind].
+    destruct (all3_length _ _ _ _ H3) as [Hl1 Hl2].
+    destruct (w_adv_trailing (length (ds_s st)) O (ds_s st) (ds_currs st) n H3 Hn ltac:(lia)) as [cs' [currs' [E [H3' [Hf' Hl']]]]].
+    { intros j m Hj. lia. }
+    rewrite E. cbn [rbind fst snd].
+    apply w_dsl_loop; [|exact Hf'|exact Hn|lia].
+    unfold dsl_wany. simpl. split; [reflexivity|]. split; [exact Hmin|]. split; [exact H3'|].
+    split; [reflexivity|]. split; [reflexivity|]. intros q Hq. discriminate.
   Qed.
 End Weak.
